@@ -490,6 +490,31 @@ def run(ctx, impl_only=False):
     # ---- correspondence with the option-aware Lean model (values of the PyVal universe)
     if not impl_only:
         model_correspondence(ctx)
+    # ---- clauses (2) and (3) over hostile keys, edge-case leaves and shared sub-objects (implementation only), ordered and order-ignoring
+    from . import _difffam as FAM
+    extra = dict(OPTIONS)
+    extra.update({'significant_digits_0': dict(significant_digits=0), 'truncate_day': dict(truncate_datetime='day'), 'exclude_float': dict(exclude_types=[float]),
+                  'ignore_nan_inequality': dict(ignore_nan_inequality=True), 'keep_private': dict(ignore_private_variables=False)})
+    names_x = sorted(extra)
+    for (t1, t2) in FAM.hostile_pairs(ctx, 120 if ctx.thorough() else 24):
+        for (a, b) in ((t1, t2), (t1, copy.deepcopy(t1))):
+            for io in (False, True):
+                base_kw = dict(ignore_order=True) if io else {}
+                plain, e0 = safe_diff(a, b, **base_kw)
+                if e0 is not None:
+                    ctx.count('hostile_plain_raised:' + type(e0).__name__); continue
+                for nm in ctx.rng.sample(names_x, 5):
+                    kw = dict(extra[nm], **base_kw)
+                    ctx.evaluations += 1
+                    d, e = safe_diff(a, b, **kw)
+                    case = {'clause': 'plain-empty / totality (hostile values)', 'option': nm + (' + ignore_order' if io else ''), 'x': repr(a), 'y': repr(b), 'zip': False}
+                    ctx.count('hostile_options')
+                    if e is not None:
+                        ctx.violate(case, 'DeepDiff raises %s under %s on inputs it accepts without it: %s' % (type(e).__name__, nm, str(e)[:100]))
+                    elif not plain and d:
+                        ctx.violate(case, 'the plain diff is empty, under %s it is not: %s' % (nm, str(d)[:150]))
+                    elif plain:
+                        ctx.nontriv((repr(a), repr(b), nm, io, 'hostile'))
     # ---- boundary witnesses
     import datetime as _dt
     regress = [
